@@ -29,6 +29,7 @@ import (
 
 type FnShape struct {
 	Sig    string      `json:"sig"`
+	Flat   string      `json:"flat,omitempty"`   // the signature with the receiver as first parameter (a method turned into a function keeps it)
 	Params []string    `json:"params,omitempty"` // receiver, parameters, then free variables
 	Locals [][2]string `json:"locals,omitempty"` // name, type - in declaration order
 }
@@ -44,6 +45,16 @@ func sigString(fn *ssa.Function) string {
 	if fn.Signature.Recv() != nil {
 		s = "recv " + fn.Signature.Recv().Type().String() + " " + s
 	}
+	return strings.ReplaceAll(s, modPath+"/", "")
+}
+
+// flatSig: parameter types (receiver first) and result types, in the order given.
+func flatSig(fn *ssa.Function) string {
+	var ps []string
+	for _, p := range fn.Params {
+		ps = append(ps, p.Type().String())
+	}
+	s := "(" + strings.Join(ps, ", ") + ") " + fn.Signature.Results().String()
 	return strings.ReplaceAll(s, modPath+"/", "")
 }
 
@@ -96,7 +107,7 @@ func localsOf(P *Program, fn *ssa.Function) [][2]string {
 func shapeOf(P *Program) *Shape {
 	sh := &Shape{Functions: map[string]*FnShape{}}
 	for _, fn := range P.All {
-		fs := &FnShape{Sig: sigString(fn), Locals: localsOf(P, fn)}
+		fs := &FnShape{Sig: sigString(fn), Flat: flatSig(fn), Locals: localsOf(P, fn)}
 		for _, p := range fn.Params {
 			fs.Params = append(fs.Params, p.Name())
 		}
@@ -208,8 +219,14 @@ func shortName(full string) string {
 func renameMap(of, nf *FnShape) map[string]string {
 	m := map[string]string{}
 	if len(of.Params) == len(nf.Params) {
+		// by position - but only a name that is gone is a rename (parameters that merely changed places keep their names)
+		oldP, newP := map[string]bool{}, map[string]bool{}
 		for i := range of.Params {
-			if of.Params[i] != nf.Params[i] && of.Params[i] != "" && nf.Params[i] != "" {
+			oldP[of.Params[i]] = true
+			newP[nf.Params[i]] = true
+		}
+		for i := range of.Params {
+			if of.Params[i] != nf.Params[i] && of.Params[i] != "" && nf.Params[i] != "" && !newP[of.Params[i]] && !oldP[nf.Params[i]] {
 				m[of.Params[i]] = nf.Params[i]
 			}
 		}
@@ -303,7 +320,7 @@ func applyShapeAliases(P *Program, sp *Specs) []string {
 			if _, existed := old.Functions[n]; existed || strings.Contains(n, "$") {
 				continue
 			}
-			if fs.Sig == os0.Sig {
+			if fs.Sig == os0.Sig || (os0.Flat != "" && fs.Flat == os0.Flat) {
 				cands = append(cands, n)
 			}
 		}
